@@ -390,6 +390,11 @@ def concretize_type(t, reg: Registry):
         return reg.by_def[key]
     if tag == "stype":
         return _stype_class(t, reg)
+    if tag == "alias695":
+        key = jkey(t)
+        if key not in reg.by_def:
+            reg.by_def[key] = typing.TypeAliasType(reg._pyname(t[1]), concretize_type(t[2], reg))      # what `type Name = T` creates
+        return reg.by_def[key]
     if tag == "final":
         return typing.Final[concretize_type(t[1], reg)]
     if tag == "annotated":
